@@ -345,6 +345,7 @@ func (vc *VC) loopMods(li *loopInfo) {
 				vc.modKeysOfStore(x.Addr, t, li.mods)
 			case *ssa.MapUpdate:
 				li.mods["#map"] = true
+				vc.noteMapTarget(li, x.Map)
 			case *ssa.Next:
 				if r, ok := x.Iter.(*ssa.Range); ok {
 					if k, mt := vc.iterKey(r); mt != nil {
@@ -407,6 +408,13 @@ func (vc *VC) enterLoop(li *loopInfo, b *ssa.BasicBlock, preds []*ssa.BasicBlock
 		vc.checkInvariant(li, p, vc.exit[p.Index], "entry")
 	}
 	// 2. havoc
+	preMaps := map[string]string{}
+	preNext := st.nextId
+	for hk := range vc.heapSort {
+		if strings.HasPrefix(hk, "#map.") {
+			preMaps[hk] = vc.heapGet(st, hk, vc.heapElem[hk])
+		}
+	}
 	if li.modAll {
 		vc.havocAll(st)
 	} else {
@@ -423,6 +431,22 @@ func (vc *VC) enterLoop(li *loopInfo, b *ssa.BasicBlock, preds []*ssa.BasicBlock
 				continue
 			}
 			vc.havocKey(st, k)
+		}
+	}
+	// maps are only updated through values defined before the loop: every other map that existed
+	// when the loop was entered is what it was then
+	if !li.modAll && li.mods["#map"] && !li.mapOther {
+		for _, hk := range sortedKeys(preMaps) {
+			nw := vc.heapGet(st, hk, vc.heapElem[hk])
+			if nw == preMaps[hk] {
+				continue
+			}
+			conds := []string{sx("<", sx("rt", "l!f"), preNext)}
+			for _, m := range li.mapTargets {
+				conds = append(conds, not(eq("l!f", vc.val(m).S)))
+			}
+			vc.addFact("assume", fmt.Sprintf("(forall ((l!f Loc)) (! (=> %s (= (select %s l!f) (select %s l!f))) :pattern ((select %s l!f))))",
+				and(conds...), nw, preMaps[hk], nw))
 		}
 	}
 	// a fresh reach for "some iteration"
@@ -1309,7 +1333,36 @@ func (vc *VC) ret(x *ssa.Return, st *State) {
 		if label == "" {
 			label = fmt.Sprintf("ensures%d", i)
 		}
-		vc.oblige("post", label, vc.trBool(c.E, env), x.Pos())
+		goal := c.E
+		genv := env
+		// existential postconditions with a stated witness
+		for {
+			q, ok := goal.(*EQuant)
+			if !ok || q.Forall || len(q.Vars) == 0 {
+				break
+			}
+			var w *Witness
+			for k := range vc.fc.Witnesses {
+				if vc.fc.Witnesses[k].Label == c.Label && vc.fc.Witnesses[k].Name == q.Vars[0].Name {
+					w = &vc.fc.Witnesses[k]
+				}
+			}
+			if w == nil {
+				break
+			}
+			genv = genv.child()
+			wt := vc.tr(w.E, env)
+			genv.vars[q.Vars[0].Name] = vc.coerceInt(wt, vc.parseType(q.Vars[0].Type, env.pkg))
+			if len(q.Vars) > 1 {
+				goal = &EQuant{Forall: false, Vars: q.Vars[1:], Body: q.Body}
+			} else {
+				goal = q.Body
+			}
+		}
+		gt := vc.trBool(goal, genv)
+		vc.oblige("post", label, gt, x.Pos())
+		// postconditions are proved in order: an earlier one may be used for the later ones
+		vc.assume(vc.guard(), gt)
 	}
 	for _, gi := range vc.prog.cs.GlobalInvs {
 		if gi.Pkg == vc.pkg.Path() && gi.Init == vc.name {
@@ -1688,4 +1741,18 @@ func singleStoreBefore(al *ssa.Alloc, mc *ssa.MakeClosure) bool {
 		}
 	}
 	return st.Block().Dominates(mc.Block())
+}
+
+// noteMapTarget records a map updated inside a loop; values defined inside the loop are not tracked.
+func (vc *VC) noteMapTarget(li *loopInfo, m ssa.Value) {
+	if ins, ok := m.(ssa.Instruction); ok && ins.Block() != nil && li.body[ins.Block().Index] {
+		li.mapOther = true
+		return
+	}
+	for _, t := range li.mapTargets {
+		if t == m {
+			return
+		}
+	}
+	li.mapTargets = append(li.mapTargets, m)
 }
